@@ -138,7 +138,43 @@ class Obj:
         if body and isinstance(body[0], ast.Expr) and isinstance(body[0].value, ast.Constant) and isinstance(body[0].value.value, str):
             body = body[1:]
         kind, val = run_block(body, env, self.funcs)
-        return val if kind == 'return' else None
+        return _result(fn, env, kind, val)
+
+
+class GenList(list):
+    """the values a generator function yields, produced eagerly (the interpreted generators are finite): iterable, next()-able"""
+
+    def __iter__(self):
+        return self
+
+    def __next__(self):
+        if not self:
+            raise StopIteration
+        return self.pop(0)
+
+
+_GEN_CACHE = {}
+
+
+def _is_generator(fn):
+    k = id(fn)
+    if k not in _GEN_CACHE:
+        found = False
+        stack = list(fn.body)
+        while stack and not found:
+            n_ = stack.pop()
+            if isinstance(n_, (ast.Yield, ast.YieldFrom)):
+                found = True
+            elif not isinstance(n_, (ast.FunctionDef, ast.Lambda, ast.ClassDef)):
+                stack.extend(ast.iter_child_nodes(n_))
+        _GEN_CACHE[k] = (fn, found)
+    return _GEN_CACHE[k][1]
+
+
+def _result(fn, env, kind, val):
+    if _is_generator(fn):
+        return GenList(env.get('__yielded__', []))
+    return val if kind == 'return' else None
 
 
 def _bind_params(fn, params, args, kwargs, env, funcs, name):
@@ -825,6 +861,15 @@ def ev(n, env, funcs=None):
     if isinstance(n, ast.Slice):
         return slice(ev(n.lower, env, funcs) if n.lower is not None else None, ev(n.upper, env, funcs) if n.upper is not None else None,
                      ev(n.step, env, funcs) if n.step is not None else None)
+    if isinstance(n, ast.Yield):
+        env.setdefault('__yielded__', []).append(ev(n.value, env, funcs) if n.value is not None else None)
+        return None
+    if isinstance(n, ast.YieldFrom):
+        src_ = ev(n.value, env, funcs)
+        if not isinstance(src_, (list, tuple, range, set, frozenset, dict, str)) and not hasattr(src_, '__iter__'):
+            raise Unsupported('yield from %s' % _unparse(n.value))
+        env.setdefault('__yielded__', []).extend(list(src_))
+        return None
     if isinstance(n, ast.IfExp):
         return ev(n.body, env, funcs) if ev(n.test, env, funcs) else ev(n.orelse, env, funcs)
     if isinstance(n, ast.Dict) and all(k is not None for k in n.keys):
@@ -905,7 +950,7 @@ def run_block(stmts, env, funcs=None, limit=10000):
             pass
         elif isinstance(s, ast.Expr) and isinstance(s.value, ast.Constant):
             pass
-        elif isinstance(s, ast.Expr) and isinstance(s.value, ast.Call):
+        elif isinstance(s, ast.Expr) and isinstance(s.value, (ast.Call, ast.Yield, ast.YieldFrom, ast.Await, ast.NamedExpr, ast.Name, ast.Attribute, ast.BinOp, ast.Compare, ast.Subscript)):
             ev(s.value, env, funcs)
         elif isinstance(s, ast.For):
             it = ev(s.iter, env, funcs)
@@ -1034,7 +1079,7 @@ def _closure(fdef, env, funcs):
         e2.update(kwargs)
         body = fdef.body
         kind, val = run_block(body, e2, funcs)
-        return val if kind == 'return' else None
+        return _result(fdef, e2, kind, val)
     call.__name__ = fdef.name
     return call
 
@@ -1099,6 +1144,6 @@ def make_func(fn, funcs=None, self_obj=None):
         if body and isinstance(body[0], ast.Expr) and isinstance(body[0].value, ast.Constant) and isinstance(body[0].value.value, str):
             body = body[1:]
         kind, val = run_block(body, env, funcs)
-        return val if kind == 'return' else None
+        return _result(fn, env, kind, val)
     call.__name__ = getattr(fn, 'name', 'function')
     return call
